@@ -282,9 +282,16 @@ impl MulSpecImpl<Translation3> for Isometry3 {
 pub uninterp spec fn quat_inv_s(a: UnitQuaternion) -> UnitQuaternion;
 pub uninterp spec fn tr_inv_s(a: Translation3) -> Translation3;
 pub uninterp spec fn iso_mul_q_s(a: Isometry3, q: UnitQuaternion) -> Isometry3;
+pub uninterp spec fn rotation_to_s(a: UnitQuaternion, b: UnitQuaternion) -> UnitQuaternion;
+pub uninterp spec fn quat_angle1_s(a: UnitQuaternion) -> f64;
+pub uninterp spec fn euler_s(a: UnitQuaternion) -> (f64, f64, f64);
 impl UnitQuaternion {
     #[verifier::external_body]
     pub fn inverse(&self) -> (r: UnitQuaternion) ensures r == quat_inv_s(*self) { unimplemented!() }
+    #[verifier::external_body]
+    pub fn rotation_to(&self, other: &UnitQuaternion) -> (r: UnitQuaternion) ensures r == rotation_to_s(*self, *other) { unimplemented!() }
+    #[verifier::external_body]
+    pub fn euler_angles(&self) -> (r: (f64, f64, f64)) ensures r == euler_s(*self) { unimplemented!() }
 }
 impl Translation3 {
     #[verifier::external_body]
